@@ -465,10 +465,15 @@ fn write_replay(check: &dyn Check, key: &str, detail: &str, scenario: &J, seed: 
 pub fn run_check(check: &dyn Check, tier: Tier) -> i32 {
     let started = Instant::now();
     let seed = master_seed();
+    let divisor = std::env::var("VERIF_RUNS_DIVISOR")
+        .ok()
+        .and_then(|s| s.parse::<u64>().ok())
+        .filter(|d| *d >= 1)
+        .unwrap_or(1);
     let total = std::env::var("VERIF_RUNS")
         .ok()
         .and_then(|s| s.parse::<u64>().ok())
-        .unwrap_or_else(|| check.runs(tier));
+        .unwrap_or_else(|| (check.runs(tier) / divisor).max(1));
     let n = workers_count();
     let dir = scratch_dir(check.id());
     let exe = std::env::current_exe().expect("current_exe");
@@ -775,6 +780,7 @@ pub fn run_check(check: &dyn Check, tier: Tier) -> i32 {
         .set("determinism_recheck", J::obj().set("runs", recheck_runs).set("mismatches", recheck_mismatches))
         .set("event_log_fingerprint", format!("{:016x}", log_xor))
         .set("workers", n)
+        .set("build_profile", if cfg!(debug_assertions) { "dev (debug assertions and overflow checks on)" } else { "release (wrapping arithmetic, no debug assertions)" })
         .set("timed_out", timed_out)
         .set("components", check.components());
     let evidence = J::obj()
@@ -788,7 +794,9 @@ pub fn run_check(check: &dyn Check, tier: Tier) -> i32 {
         .set("violations", unlisted);
     let ev_dir = verif_dir().join("evidence");
     let _ = std::fs::create_dir_all(&ev_dir);
-    let ev_path = ev_dir.join(format!("{}.json", check.id()));
+    // A side run (the release-profile sample of the thorough tier) writes its own file
+    let ev_name = std::env::var("VERIF_EVIDENCE_NAME").unwrap_or_else(|_| format!("{}.json", check.id()));
+    let ev_path = ev_dir.join(ev_name);
     if let Err(e) = std::fs::write(&ev_path, evidence.to_pretty()) {
         eprintln!("harness error: cannot write evidence {}: {}", ev_path.display(), e);
         harness_error = true;
